@@ -30,7 +30,7 @@ man = {
     "hooks": meta["hooks"],
     "engines": [{"name": "coq-proof+correspondence", "path": "/verif/check",
                  "serves_properties": [c["property_id"] for c in checks],
-                 "kind_free_text": "Coq 8.16.1 theorems (coq/Properties/*.v) about scalar-generic Gallina models (coq/model/*.v), at the real instance and, where exactness is the claim, at the binary64 instance; tie 1: tools/kurbo2coq regenerates Gallina from the Rust source of ~311 functions on every run and Coq proves each definitionally equal to its model (props/translation.json, docs/TRANSLATOR.md); tie 2: the models are executed at binary64 inside Coq (vm_compute) on the inputs/outputs produced by a Rust harness linked against /repo's working tree and compared bit-for-bit; property laws are additionally sampled on the implementation to produce concrete replays"}],
+                 "kind_free_text": "Coq 8.16.1 theorems (coq/Properties/*.v) about scalar-generic Gallina models (coq/model/*.v), at the real instance and, where exactness is the claim, at the binary64 instance; tie 1: tools/kurbo2coq regenerates Gallina from the Rust source of ~317 functions on every run and Coq proves each definitionally equal to its model (props/translation.json, docs/TRANSLATOR.md); tie 2: the models are executed at binary64 inside Coq (vm_compute) on the inputs/outputs produced by a Rust harness linked against /repo's working tree and compared bit-for-bit; property laws are additionally sampled on the implementation to produce concrete replays"}],
     "checks": checks,
     "notes": meta["notes"],
     "not_applicable": na,
